@@ -15,6 +15,8 @@ import CijModel.Ops.C03
 import CijModel.Ops.C04
 import CijModel.Ops.C17
 import CijModel.Ops.C20
+import CijModel.Ops.C16
+import CijModel.Ops.C11
 open Lean Cij.Wire
 
 def handlers : List Handler := [
@@ -29,7 +31,9 @@ def handlers : List Handler := [
   Cij.Ops.C03.handle,
   Cij.Ops.C04.handle,
   Cij.Ops.C17.handle,
-  Cij.Ops.C20.handle
+  Cij.Ops.C20.handle,
+  Cij.Ops.C16.handle,
+  Cij.Ops.C11.handle
 ]
 
 def dispatch (line : String) : Json :=
